@@ -201,6 +201,15 @@ def stepToks (s : DState) (toks : List String) : DState × String :=
       | some h' => (s.setH r { reg with h := h', absorbed := reg.absorbed ++ data }, "ok " ++ toString data.length ++ ";-")
       | none => (s, "PANIC;-")
     | _, _ => bad
+  -- Write::write_vectored over slices of the given lengths (repeated until everything is accepted): the bytes of the slices in order
+  | "H" :: "updwv" :: r :: lens :: rest =>
+    if (lens.splitOn ",").all (fun x => x.toNat?.isSome) then
+      match s.getH r, parseData rest with
+      | some reg, some (data, []) => match reg.h.update genK s.sd data with
+        | some h' => (s.setH r { reg with h := h', absorbed := reg.absorbed ++ data }, "ok " ++ toString data.length ++ ";-")
+        | none => (s, "PANIC;-")
+      | _, _ => bad
+    else bad
   | ["H", "fin", r] => match s.getH r with
     | some reg =>
       let m := match reg.h.finalize genK with
@@ -512,12 +521,20 @@ def stepToks (s : DState) (toks : List String) : DState × String :=
         bytesOfWords (genK.cxof (cvOfBytes cvb) (wordsOfBytes 16 bb) (UInt8.ofNat bl) (UInt64.ofNat (ctr + i)) (UInt8.ofNat fl))
       (s, hexOfBytes outs ++ ";-")
     | _, _, _, _, _, _ => bad
+  | "D" :: "poolmmap" :: _ => (s, "-;-")        -- real threads and files: implementation-only comparison in the file stage
   | "D" :: "zeroscan" :: _ => (s, "-;-")        -- memory scan of the real objects: no memory model, oracle in the generator
   | ["C", "featmask"] => (s, "-;-")
   | "E" :: rest => match Hex.stepLine ("E" :: rest) with
     | some o => (s, o ++ ";-")
     | none => bad
   -- ---- C library
+  | ["C", "rdp2", x] => match x.toNat? with
+    | some x =>
+      if x < 2 ^ 64 then (s, showR (Gen.C.round_down_to_power_of_2 x) ++ ";" ++ toString (if x = 0 then 1 else 2 ^ Nat.log2 x)) else bad
+    | none => bad
+  | ["C", "popcnt", x] => match x.toNat? with
+    | some x => if x < 2 ^ 64 then (s, toString (Arith.popcnt x) ++ ";" ++ toString ((Nat.toDigits 2 x).count '1')) else bad
+    | none => bad
   | ["C", "feat", p] => match sdOfPlatform p with
     | some sd => ({ s with csd := sd }, "ok;-")
     | none => if p = "detect" then ({ s with csd := 16 }, "ok;-") else bad
@@ -573,6 +590,8 @@ def step (s : DState) (line : String) : DState × String :=
   -- `hmanysep`: hash_many with every input in its own guarded buffer: same contract as `hmany`
   | "CK" :: "hmanysep" :: sym :: n :: blocks :: seed :: key :: ctr :: incr :: fl :: fs :: fe :: _ =>
     stepToks s ["K", "hmany", sym, n, blocks, seed, key, ctr, incr, fl, fs, fe, "0", "0"]
+  | ["CK", "align", _] => (s, "ok;-")             -- harness setting (stack alignment at the call): no effect on the contract
+  | ["CK", "dirty", _] => (s, "ok;-")             -- harness setting (garbage above narrow arguments)
   | "CK" :: rest => stepToks s ("K" :: rest)      -- C kernels: same contract as the Rust platform kernels
   | toks => stepToks s toks
 
